@@ -147,7 +147,8 @@ func (a *Application) getProviderEndpoints(ctx context.Context, providerType str
 
 	// If the request has specific requirements (e.g., needs vision support),
 	// apply those filters on top of the provider constraint
-	if pr.profile != nil && len(pr.profile.SupportedBy) > 0 {
+	// (a request that names a model is routed by it even when no profile declares its path)
+	if pr.profile != nil && (len(pr.profile.SupportedBy) > 0 || pr.profile.ModelName != "") {
 		providerEndpoints = a.filterEndpointsByProfile(providerEndpoints, pr.profile, pr.requestLogger)
 	}
 
